@@ -23,6 +23,7 @@ static void addCommonCfg(plan::Plan* p, Rng& r, uint64_t seed, const char* famil
            static_cast<unsigned long long>(seed), static_cast<int>(r.below(4)), sw[r.below(4)], 1 + static_cast<int>(r.below(3)), 500 + static_cast<int>(r.below(3000)),
            r.chance(0.5) ? "mainloop" : "connection", 1000 + static_cast<int>(r.below(10000)), errnoFault && r.chance(0.5) ? "0.05" : "0");
   p->add(buf);
+  if (seed % 25 == 0) p->add("cfg lsan=1");   // sampled: LeakSanitizer after the orderly shutdown (about 0.15 s per check)
   snprintf(buf, sizeof(buf), "cfg rxlat=%d txlat=%d synperiod=%d chunk=%d batch=0 enhanced=%d", static_cast<int>(r.below(2000)), static_cast<int>(r.below(800)),
            38000 + static_cast<int>(r.below(8000)), static_cast<int>(r.below(3)), r.chance(0.3) ? 1 : 0);
   p->add(buf);
